@@ -61,6 +61,42 @@ def pointwise_axis_obligations():
                 ok, detail = False, 'raised %s: %s' % (type(e).__name__, e)
             obs.append(_mk('bspline:%s:post:coll-axis[sdim=%d]' % (fname, sdim), ok,
                            'knot-vector axis d is paired with coordinate sdim-1-d (xyz vs zyx order) and the call does not raise', detail, src='coll = [...]'))
+            # point order: the coordinate arrays may have any memory layout (transposed views, Fortran order); the points must reach the
+            # collocation routine in index (row-major) order, because the result is reshaped to the shape of the coordinate arrays in that
+            # order.  Recorded on 2x3 coordinate arrays that are transposed views (memory order != index order).
+            seen = []
+
+            def rec2(kv, pts, derivs=None):
+                seen.append((kv.d, [float(x) for x in pts]))
+                n = len(pts)
+                idx = onp.zeros(n, dtype=int)
+                if derivs is None:
+                    w = onp.zeros((n, 2))
+                    w[:, 0] = onp.asarray(pts)          # weight of local function 0 = the coordinate itself
+                    return idx, w
+                return idx, onp.ones((derivs + 1, n, 2))
+            ns2 = {'np': onp, callee: rec2}
+            exec(code, ns2)
+            pts2 = tuple((onp.arange(6.0).reshape(3, 2) + 10.0 * (k + 1)).T for k in range(sdim))        # shape (2,3), not C-contiguous
+            coeffs2 = onp.ones((2,) * sdim + (1,))
+            try:
+                out = ns2[fname](kvs, coeffs2, pts2)
+                want2 = [(d, [float(x) for x in pts2[sdim - 1 - d].ravel(order='C')]) for d in range(sdim)]
+                ok2 = seen == want2
+                detail2 = 'coordinates handed to the collocation routine: %r, expected (index order) %r' % (seen, want2)
+                if ok2 and fname == 'tp_bsp_eval_pointwise':
+                    # with these recorded weights and unit coefficients the value at point (i,j) is the product of its coordinates
+                    prod = onp.ones((2, 3))
+                    for a in pts2:
+                        prod = prod * a
+                    got = onp.asarray(out)
+                    got = got.reshape(got.shape[:2]) if got.size == 6 else got
+                    ok2 = got.shape == (2, 3) and bool(onp.allclose(got, prod))
+                    detail2 = 'values come back at permuted positions: got %r, expected %r' % (got.tolist(), prod.tolist())
+            except Exception as e:
+                ok2, detail2 = False, 'raised %s: %s' % (type(e).__name__, e)
+            obs.append(_mk('bspline:%s:post:point-order[sdim=%d]' % (fname, sdim), ok2,
+                           'scattered points are processed in index order of the coordinate arrays, independent of their memory layout', detail2, src='XY = ...'))
     return obs, None
 
 
